@@ -69,7 +69,8 @@ def run_optimizer(name, p0, data, model, lower, upper, fixed, multinom):
     import dadi
     from dadi import Inference
     import nlopt
-    common = dict(lower_bound=list(lower), upper_bound=list(upper), fixed_params=list(fixed) if fixed is not None else None, multinom=multinom)
+    common = dict(lower_bound=list(lower) if lower is not None else None, upper_bound=list(upper) if upper is not None else None,
+                  fixed_params=list(fixed) if fixed is not None else None, multinom=multinom)
     pts = [20]
     if name == 'opt_bobyqa':
         x, v = Inference.opt(p0, data, model, pts, algorithm=nlopt.LN_BOBYQA, maxeval=400, **common)
@@ -124,8 +125,11 @@ def case_opt(col, p):
         # a parameter allowed to range over [-3*p*, 0] (e.g. a selection coefficient): upper bound exactly 0, optimum beyond it
         lower, upper = pstar * 0.05, pstar * 20.0
         lower[1], upper[1] = -3.0 * pstar[1], 0.0
+    elif box == 'above':
+        lower, upper = pstar * 1.25, pstar * 50.0         # optimum below the lower bounds
     else:
         lower, upper = pstar * 0.02, pstar * 0.8          # optimum beyond the upper bounds
+    one_sided = p.get('one_sided')                        # only this side's bound list is handed to the optimiser, the other is left at None
     n = 0
     # 1e-12 relative slack: log-space optimisers map exp(log(bound)); NLopt rescales variables internally and may touch a bound from 1 ulp outside
     slack = 1e-12 if (name in LOGSPACE or name.startswith('opt_')) else 0.0
@@ -152,11 +156,17 @@ def case_opt(col, p):
                 fixed = fixedvals if any(fixed_mask) else None
             record.clear()
             lower_l, upper_l = list(lower), list(upper)
+            if p.get('zero_fixed'):
+                # the fixed parameters are held at exactly 0 (the linear model just loses those components)
+                fixedvals = [(0.0 if sum(start_code) % 2 else 0) if f else None for f in fixed_mask]
+                fixed = fixedvals if any(fixed_mask) else None
+                lower_l = [0.0 if f else lo for f, lo in zip(fixed_mask, lower_l)]       # the box contains the fixed values
             info = dict(p, fixed=fixedvals, start=p0, fixed_only=list(fixed_mask), start_stride=None)
             # the start vector is handed over as a float array (what perturb_params or a previous optimisation returns) or as a list
             p0_arg = p0.copy() if sum(start_code) % 2 == 0 else [float(v) for v in p0]
             try:
-                xopt, reported = run_optimizer(name, p0_arg, data, model, lower_l, upper_l, fixed, multinom)
+                xopt, reported = run_optimizer(name, p0_arg, data, model, None if one_sided == 'upper' else lower_l, None if one_sided == 'lower' else upper_l,
+                                               fixed, multinom)
             except Exception as e:
                 col.tick(transitions=len(record) + 1)
                 col.violation('C12:%s:raises' % name, info, '%s: %s' % (type(e).__name__, str(e)[:200]))
@@ -168,8 +178,13 @@ def case_opt(col, p):
                 col.tick(nlopt_roundoff_limited_reported=1)      # documented: RoundoffLimited is reported as (-inf, nan)
                 continue
             start_full = np.array([fv if fv is not None else s for fv, s in zip(fixedvals, p0)])
+            if one_sided:
+                lower_c = lower if one_sided == 'lower' else np.full(k, -np.inf)
+                upper_c = upper if one_sided == 'upper' else np.full(k, np.inf)
+            else:
+                lower_c, upper_c = lower, upper
             # caller's lists untouched
-            if lower_l != list(lower) or upper_l != list(upper):
+            if (lower_l != list(lower) and not p.get('zero_fixed')) or upper_l != list(upper):
                 col.violation('C12:%s:bound_lists_modified' % name, info, '')
             if not np.array_equal(np.asarray(p0_arg, dtype=float), p0):
                 col.violation('C12:%s:start_vector_modified' % name, dict(info, passed_as=type(p0_arg).__name__), {'before': p0, 'after': np.asarray(p0_arg, dtype=float)})
@@ -183,10 +198,10 @@ def case_opt(col, p):
             # 2. every evaluation inside the box, fixed entries bit-identical
             for ev in record:
                 band = slack * np.maximum(np.abs(lower), np.abs(upper))
-                if np.any(ev < lower - band) or np.any(ev > upper + band):
+                if np.any(ev < lower_c - band) or np.any(ev > upper_c + band):
                     free = [i for i, f in enumerate(fixed_mask) if not f]
-                    if np.any(ev[free] < (lower - band)[free]) or np.any(ev[free] > (upper + band)[free]):
-                        col.violation('C12:%s:evaluated_outside_bounds' % name, info, {'params': ev, 'lower': lower, 'upper': upper})
+                    if np.any(ev[free] < (lower_c - band)[free]) or np.any(ev[free] > (upper_c + band)[free]):
+                        col.violation('C12:%s:evaluated_outside_bounds' % name, info, {'params': ev, 'lower': lower_c, 'upper': upper_c})
                         break
                 bad = [i for i, fv in enumerate(fixedvals) if fv is not None and ev[i] != fv]
                 if bad:
@@ -201,8 +216,8 @@ def case_opt(col, p):
                 col.violation('C12:%s:fixed_parameter_changed_in_result' % name, info, {'xopt': xopt, 'fixed': fixedvals})
             free = [i for i, f in enumerate(fixed_mask) if not f]
             band = 1e-12 * np.maximum(np.abs(lower), np.abs(upper))
-            if np.any(xopt[free] < (lower - band)[free]) or np.any(xopt[free] > (upper + band)[free]):
-                col.violation('C12:%s:result_outside_bounds' % name, info, {'xopt': xopt, 'lower': lower, 'upper': upper})
+            if np.any(xopt[free] < (lower_c - band)[free]) or np.any(xopt[free] > (upper_c + band)[free]):
+                col.violation('C12:%s:result_outside_bounds' % name, info, {'xopt': xopt, 'lower': lower_c, 'upper': upper_c})
                 continue
             # 4. reported optimum is the likelihood of the returned point
             rec2 = []
@@ -220,7 +235,7 @@ def case_opt(col, p):
                 if best_seen > ll_start + 1e-3 and ll_ret < best_seen - 1e-6 * max(1.0, abs(best_seen)) and len(record) >= 5:
                     col.violation('C12:%s:returns_point_worse_than_evaluated' % name, info, {'best_evaluated(first 50)': best_seen, 'll_returned': ll_ret, 'xopt': xopt, 'start': start_full})
     col.tick(states=n, traces=n)
-    col.distinct('nontrivial', ('opt', name, kind, k, multinom, box, tuple(p.get('fixed_only') or ()), bool(p.get('on_bound'))))
+    col.distinct('nontrivial', ('opt', name, kind, k, multinom, box, tuple(p.get('fixed_only') or ()), bool(p.get('on_bound')), one_sided, bool(p.get('zero_fixed'))))
 
 
 def case_grid(col, p):
@@ -278,8 +293,13 @@ def case_project(col, p):
     k = p['k']
     n = 0
     vals = np.array([1.5, -2.0, 0.0, 7.25, 1e-9][:k])
-    for mask in itertools.product((0, 1), repeat=k):
+    for mask, zero in itertools.product(itertools.product((0, 1), repeat=k), (None, 0.0, 0, False)):
+        # zero: one fixed parameter is held at exactly 0 (a migration rate or selection coefficient switched off), as float, int or numpy-free bool
         fixed = [float(10 + i) if f else None for i, f in enumerate(mask)]
+        if zero is not None:
+            if not any(mask):
+                continue
+            fixed[list(mask).index(1)] = zero
         down = Inference._project_params_down(list(vals), fixed)
         up = Inference._project_params_up(down, fixed)
         col.tick(transitions=2)
@@ -407,6 +427,18 @@ def run(ctx):
             for fixed_mask in ((0, 0), (0, 1), (1, 0)):
                 cases.append({'kind': 'opt', 'opt': name, 'model': 'nonlinear', 'k': 2, 'multinom': multinom, 'box': 'inside',
                               'fixed_only': list(fixed_mask), 'start_stride': 4, 'on_bound': True})
+    # bounds on one side only (the other list left at None), optimum beyond the bounded side
+    for name in ('optimize_log', 'optimize_log_fmin', 'optimize_log_powell'):
+        # (the optimisers that rely on the objective's own bound check, in log parameters so that the unbounded side cannot reach non-positive values)
+        for side, box in (('upper', 'outside'), ('lower', 'above')):
+            for fixed_mask in ((0, 0), (0, 1), (1, 0)):
+                cases.append({'kind': 'opt', 'opt': name, 'model': 'linear', 'k': 2, 'multinom': False, 'box': box, 'fixed_only': list(fixed_mask),
+                              'start_stride': None, 'one_sided': side})
+    # parameters fixed at exactly 0
+    for name in LOCAL:
+        for fixed_mask in ((1, 0, 0), (0, 1, 0), (0, 0, 1), (1, 1, 0), (0, 1, 1)):
+            cases.append({'kind': 'opt', 'opt': name, 'model': 'linear', 'k': 3, 'multinom': False, 'box': 'inside', 'fixed_only': list(fixed_mask),
+                          'start_stride': 3, 'zero_fixed': True})
     if ctx.quick:
         ctx.cap_hit('quick: models with k<=3 parameters, for k=3 every third starting-point combination; thorough: k<=4 (k=4 every third), k<=3 complete')
     for k in (1, 2, 3):
